@@ -109,6 +109,11 @@ def prepare (g : Grid) (faces : Faces) (cond : Option Conds) : Except Err (List 
       if fs.length ≠ cl.length then .error .length else
       .ok ((fs.map Int.toNat).zip cl, warn)
 
+/-- the pairs the loop executes: everything before the first unknown keyword -/
+def goodPrefix : List (Nat × Cond) → List (Nat × Cond)
+  | [] => []
+  | p :: ps => if p.2 = .bad then [] else p :: goodPrefix ps
+
 /-- `set_bc(faces, cond)` on one component: new arrays and the exception raised, if any.
     The arrays are returned in every case because the object outlives a failing call. -/
 def setBc (g : Grid) (b : BC) (faces : Option Faces) (cond : Option Conds) : BC × Option Err :=
@@ -160,6 +165,46 @@ def runV (g : Grid) (v : VBC) : List (Option Faces × Option Conds) → VBC
   | [] => v
   | c :: cs => runV g (setBcV g v c.1 c.2).1 cs
 
+/-- `internal_to_dirichlet(sd)` on one component: every fracture (internal boundary) face becomes
+    Dirichlet.  The model follows the PROPERTY: the Robin flag is cleared as well.  The code
+    (`is_neu[:, frac] = False; is_dir[:, frac] = True`) does not clear `is_rob` — known finding,
+    see `internalToDirichletCoded`. -/
+def internalToDirichlet (g : Grid) (b : BC) : BC :=
+  ⟨b.neu.mapIdx (fun f v => if g.frac f then false else v),
+   b.dir.mapIdx (fun f v => if g.frac f then true else v),
+   b.rob.mapIdx (fun f v => if g.frac f then false else v)⟩
+
+/-- the method as it is coded (Robin flag untouched) -/
+def internalToDirichletCoded (g : Grid) (b : BC) : BC :=
+  ⟨b.neu.mapIdx (fun f v => if g.frac f then false else v),
+   b.dir.mapIdx (fun f v => if g.frac f then true else v),
+   b.rob⟩
+
+/-- operations on an existing vectorial object -/
+inductive VOp where
+  | setBc (faces : Option Faces) (cond : Option Conds)
+  | internalToDirichlet
+
+def stepV (g : Grid) (v : VBC) : VOp → VBC
+  | .setBc fa co => (setBcV g v fa co).1
+  | .internalToDirichlet => v.map (internalToDirichlet g)
+
+/-- any history of operations (failing `set_bc` calls included) -/
+def runOps (g : Grid) (v : VBC) : List VOp → VBC
+  | [] => v
+  | o :: os => runOps g (stepV g v o) os
+
+/-- the (face, cond) pairs an operation really writes: for `set_bc` the validated pairs before
+    the first unknown keyword (nothing if validation fails), for `internal_to_dirichlet` a `dir`
+    for every fracture face -/
+def executed (g : Grid) : VOp → List (Nat × Cond)
+  | .setBc none _ => []
+  | .setBc (some fa) co =>
+    match prepare g fa co with
+    | .ok (pairs, _) => goodPrefix pairs
+    | .error _ => []
+  | .internalToDirichlet => ((List.range g.nf).filter g.frac).map (fun f => (f, Cond.dir))
+
 /-! ### specification side -/
 
 def exactlyOne (a b c : Bool) : Bool := (a && !b && !c) || (!a && b && !c) || (!a && !b && c)
@@ -178,9 +223,5 @@ def lastType (f : Nat) (t : Bool × Bool × Bool) : List (Nat × Cond) → Bool 
       | _ => lastType f t ps
     else lastType f t ps
 
-/-- the pairs the loop executes: everything before the first unknown keyword -/
-def goodPrefix : List (Nat × Cond) → List (Nat × Cond)
-  | [] => []
-  | p :: ps => if p.2 = .bad then [] else p :: goodPrefix ps
 
 end PorepyVerif.C39
